@@ -21,7 +21,27 @@ NAME_EXC = {
     ('Package@lossless::apt', 'md5sum'): 'MD5sum', ('Package@lossless::apt', 'sha256'): 'SHA256', ('Package@lossless::apt', 'description_md5'): 'Description-md5',
     ('Buildinfo@lossless::buildinfo', 'binaries'): 'Binary',
     ('PatchHeader@lossless', 'upstream_bug'): 'Bug', ('PatchHeader@lossless', 'long_description'): 'Description',
+    ('Header@lossless', 'format_string'): 'Format',
 }
+
+
+# the documented layout of list-valued fields (Debian policy / deb-buildinfo(5) / DEP-5 / repository format), independent of the code
+LIST_DOC = {
+    ('Source@lossless::control', 'uploaders'): 'comma', ('Source@lossless::apt', 'uploaders'): 'comma',
+    ('Release@lossless::apt', 'architectures'): 'space', ('Release@lossless::apt', 'components'): 'space',
+    ('Changes@lossless::changes', 'binary'): 'space', ('Changes@lossless::changes', 'architecture'): 'space',
+    ('Buildinfo@lossless::buildinfo', 'binaries'): 'space', ('Buildinfo@lossless::buildinfo', 'build_tainted_by'): 'space',
+    ('Header@lossless', 'files_excluded'): 'space', ('FilesParagraph@lossless', 'copyright'): 'line',
+}
+LIST_SEPS = {'comma': [[44, 32], [44], [44, 10]], 'space': [[32], [10]], 'line': [[10]]}
+RETKIND = {'Option<String>': 'str', 'Option<Relations>': 'rel', 'Option<Vec<String>>': 'list', 'Vec<String>': 'list', 'bool': 'bool', 'Option<bool>': 'bool', 'Option<usize>': 'usize',
+           'Option<debversion::Version>': 'version', 'Option<Priority>': 'priority', 'Option<MultiArch>': 'multiarch', 'Option<url::Url>': 'url',
+           'Option<chrono::DateTime<chrono::FixedOffset>>': 'datetime', 'Option<chrono::NaiveDate>': 'date',
+           'Vec<Md5Checksum>': 'cks', 'Vec<Sha1Checksum>': 'cks', 'Vec<Sha256Checksum>': 'cks', 'Vec<Sha512Checksum>': 'cks',
+           'Option<Vec<crate::fields::Sha1Checksum>>': 'cks', 'Option<Vec<crate::fields::Sha256Checksum>>': 'cks'}
+PARSED_SKIP = {('PatchHeader@lossless', 'long_description'), ('PatchHeader@lossless', 'author'), ('Package@lossless::apt', 'tags'), ('Changes@lossless::changes', 'get_pool_path'),
+               ('LicenseParagraph@lossless', 'name'), ('LicenseParagraph@lossless', 'text'), ('LicenseParagraph@lossless', 'comment'), ('FilesParagraph@lossless', 'files'),
+               ('Release@lossless::apt', 'changelogs')}
 
 
 def expected_field(r):
@@ -92,7 +112,8 @@ def gen_value(e, r, allow_clear=True, short=False):
         v.args = [NONE()]; v.js = [None]; v.clear = True; v.expect = ('none',); return v
     wrap = (lambda x: SOME(x)) if a in OPTIONAL else (lambda x: x)
     if k == 'str':
-        t = tok(e, 's'); v.args = [wrap(t)]; v.js = [t]; v.expect = ('str', t)
+        t = Str([]) if (not short and e.choose('emptyv', 2)) else tok(e, 's')
+        v.args = [wrap(t)]; v.js = [t]; v.expect = ('str', t) if t.chars else ('any',)
     elif k == 'bool':
         b = bool(e.choose('b', 2)); v.args = [b]; v.js = [b]; v.expect = ('bool', b)
     elif k == 'usize':
@@ -106,8 +127,8 @@ def gen_value(e, r, allow_clear=True, short=False):
         rel = rr.slots[0]
         v.args = [wrap(Ref([rel], [0])) if a != 'Relations' else rel]; v.js = [text]; v.expect = ('rel', text)
     elif k == 'list':
-        lst = [tok(e, 'l', 1, lower) for _ in range(e.choose('nl', nlist) + 1)]
-        v.args = [VecV(lst) if a == 'Vec<String>' else Ref([Agg('slice', list(lst))], [0])]; v.js = [lst]; v.expect = ('list', lst)
+        lst = [tok(e, 'l', 1, lower) for _ in range(e.choose('nl', nlist + (0 if short else 1)) + (1 if short else 0))]
+        v.args = [VecV(lst) if a == 'Vec<String>' else Ref([Agg('slice', list(lst))], [0])]; v.js = [lst]; v.expect = ('list', lst) if lst else ('any',)
     elif k in ('priority', 'multiarch'):
         names = PRIORITIES if k == 'priority' else MULTIARCH
         ty = e.prog.enum_lookup('fields::Priority' if k == 'priority' else 'fields::MultiArch', 'control')
@@ -172,6 +193,7 @@ def vec_items(e, x):
 def getter_matches(e, g, exp, crate):
     """cond: the getter's value g equals the expectation"""
     kind = exp[0]
+    if kind == 'any': return True        # an empty string / list: only the integrity of the paragraph is judged
     val, isopt = opt(e, g)
     if kind == 'none': return val is None or val is False
     if kind == 'bool':
@@ -221,6 +243,7 @@ def getter_matches(e, g, exp, crate):
 def expect_json(exp):
     """the JSON the native getter must return for a concretised expectation"""
     k = exp[0]
+    if k == 'any': return {'any': True}
     if k == 'none': return None
     if k in ('str', 'version', 'url', 'date', 'usize', 'bool', 'rel', 'list'): return exp[1]
     if k == 'enum': return exp[2]
@@ -270,11 +293,13 @@ class C15(Harness):
     op = 'accessor'
     crates = ('deb822', 'control', 'copyright', 'dep3')
     fuel = 600000
-    bounds = {'quick': {'families': ['set', 'pair']}, 'thorough': {'families': ['set', 'pair', 'set-long']}}
+    bounds = {'quick': {'families': ['set', 'pair', 'parsed', 'find'], 'string_chars': 2}, 'thorough': {'families': ['set', 'pair', 'parsed', 'find'], 'string_chars': 3}}
     assumptions = ['the accessor table (146 setters with their getters) is read from the current source; the Debian field name each accessor stands for comes from the accessor name (snake_case -> Capitalised-Hyphenated) plus a 14-entry exception table',
-                   'values: strings are 1-2 symbolic alphanumerics; lists 1-2 one-letter items; relations "a" / "a, b" / "a (>= 1) | b" with symbolic names; versions "d.d"; sizes symbolic < 10^6; every enum variant; checksum lists of 1-2 symbolic triples; two fixed timestamps / dates; urls https://e.example/<letter> (url and chrono are evaluated natively on the concretised text)',
+                   'values: strings are 1-2 symbolic alphanumerics or empty; lists 0-2 one-letter items (for an empty string / list only the integrity of the paragraph is judged, not what the getter returns); relations "a" / "a, b" / "a (>= 1) | b" with symbolic names; versions "d.d"; sizes symbolic < 10^6; every enum variant; checksum lists of 1-2 symbolic triples; two fixed timestamps / dates; urls https://e.example/<letter> (url and chrono are evaluated natively on the concretised text)',
                    'prior states of the paragraph: field absent between two foreign fields / present between them / present after a comment with extra spacing / absent with a single foreign field',
                    'pair family: every setter followed by the next setter of the same view (table order, cyclic), both getters read afterwards',
+                   'parsed family: every getter whose return type has a documented raw form reads a hand-written field: strings, relations (one-line and folded), lists in the documented layouts (comma lists with ", " / "," / folded; space lists on one line and folded; line lists), yes/no, decimal sizes, versions, enum keywords, urls, timestamps, checksum lines; the DEP-3 description is the first line of a two-line value',
+                   'find family: control files of 1-3 paragraphs, each a Source, Package or other paragraph (solver choice), names symbolic; source()/binaries() and add_source (on files without a source paragraph) / add_binary',
                    'views are opened on the first paragraph of a parsed document (copyright views: header / first Files paragraph of a parsed copyright file)']
     oracle_leniency = ['bool setters called with false may either remove the field or store a negative flag, provided the getter reads false', 'a new field may be placed anywhere in the paragraph; an existing one must stay where it was']
 
@@ -295,6 +320,14 @@ class C15(Harness):
             for i, r in enumerate(rows):
                 r2 = rows[(i + 1) % len(rows)]
                 cs.append({'fam': 'pair', 'acc': r, 'field': expected_field(r), 'acc2': r2, 'field2': expected_field(r2), 'name': 'pair:%s::%s+%s' % (k, r['setter'], r2['setter']), 'order': 1})
+        for r in t:
+            g = r['getter']
+            if not g or (accessors_key(r), g) in PARSED_SKIP: continue
+            k = RETKIND.get(r['ret'])
+            if k is None or (k == 'list' and (accessors_key(r), g) not in LIST_DOC): continue
+            if accessors_key(r) == 'Header@lossless' and g == 'format_string': continue      # the header's Format field is part of the base document
+            cs.append({'fam': 'parsed', 'acc': r, 'field': expected_field(r), 'kind': k, 'name': 'parsed:%s::%s' % (accessors_key(r), g), 'order': 0})
+        cs.append({'fam': 'find', 'name': 'find:Control', 'order': 2})
         return cs
 
     # -- symbolic side ------------------------------------------------------------------------------------------------------
@@ -355,6 +388,8 @@ class C15(Harness):
         return KIND.get(r['args'][0], 'str')
 
     def run(self, e, case):
+        if case['fam'] == 'parsed': return self.run_parsed(e, case)
+        if case['fam'] == 'find': return self.run_find(e, case)
         r = case['acc']; field = case['field']
         self.pairmode = case['fam'] == 'pair'
         text, state = self.base_text(e, r, field, self.kind_of(r))
@@ -392,6 +427,105 @@ class C15(Harness):
                 checks.append(('%s: the getter returns what %s wrote' % (r2['getter'], r2['setter']), getter_matches(e, g2, val2.expect, r2['crate'])))
         return {'pred': pred, 'checks': checks}
 
+    def raw_value(self, e, r, kind):
+        """-> (logical value chars as the field would be written after 'Field:', expectation)"""
+        key = (accessors_key(r), r['getter'])
+        if kind == 'str':
+            if key == ('PatchHeader@lossless', 'description'):
+                a = TOK(e, 's'); b = TOK(e, 'w', 1)
+                return [32] + list(a.chars) + [10] + list(b.chars), ('str', a)          # the description is the first line
+            t = TOK(e, 's'); return [32] + list(t.chars), ('str', t)
+        if kind == 'rel':
+            n1 = [e.fresh_ascii('r', lower)]; n2 = [e.fresh_ascii('r', lower)]
+            body = n1 + [[44, 32], [44, 10]][e.choose('rsep', 2)] + n2
+            return [32] + body, ('rel', Str(body))
+        if kind == 'list':
+            doc = LIST_DOC[key]; n = e.choose('nl', 2) + 1
+            items = [TOK(e, 'l', 1, lower) for _ in range(n)]
+            sep = LIST_SEPS[doc][e.choose('lsep', len(LIST_SEPS[doc]))] if n > 1 else []
+            body = []
+            for i, it in enumerate(items):
+                if i: body += sep
+                body += list(it.chars)
+            return [32] + body, ('list', items)
+        if kind == 'bool':
+            b = bool(e.choose('b', 2)); return [32] + o('yes' if b else 'no'), ('bool', b)
+        if kind == 'usize':
+            d1 = e.fresh_ascii('d', lambda c: z3.And(c >= 49, c <= 57)); ds = [d1]; val = d1 - 48
+            if e.choose('nd', 2): d2 = e.fresh_ascii('d', digit); ds.append(d2); val = val * 10 + (d2 - 48)
+            return [32] + ds, ('usize', val)
+        if kind == 'version':
+            t = [e.fresh_ascii('v', digit), 46, e.fresh_ascii('v', digit)]; return [32] + t, ('version', Str(t))
+        if kind in ('priority', 'multiarch'):
+            names = PRIORITIES if kind == 'priority' else MULTIARCH; T = 'Priority' if kind == 'priority' else 'MultiArch'
+            var = names[e.choose('var', len(names))]; ev = EnumV(e.prog.enum_lookup('fields::' + T, 'control'), var)
+            shown = e.call_path('control', '<fields::%s as ToString>::to_string' % T, [Ref([ev], [0])])
+            return [32] + list(shown.chars), ('enum', var, shown)
+        if kind == 'url':
+            t = o('https://e.example/') + [e.fresh_ascii('u', lower)]; return [32] + t, ('url', Str(t))
+        if kind == 'datetime':
+            t = ['Tue, 2 Jan 2024 03:04:05 +0000', 'Fri, 31 Dec 1999 23:59:59 +0100'][e.choose('dt', 2)]; return [32] + o(t), ('datetime', mkstr(t))
+        if kind == 'date':
+            t = ['2024-01-02', '1999-12-31'][e.choose('d', 2)]; return [32] + o(t), ('date', mkstr(t))
+        if kind == 'cks':
+            n = e.choose('nc', 2) + 1; items = []; body = []
+            for i in range(n):
+                h = TOK(e, 'h', 1, alnum); d = e.fresh_ascii('z', digit); fn = TOK(e, 'f', 1, lower)
+                items.append((h, d - 48, fn)); body += [10] + list(h.chars) + [32, d, 32] + list(fn.chars)
+            return body, ('cks', items)
+        raise Unsupported('raw value kind ' + kind)
+
+    def run_parsed(self, e, case):
+        r = case['acc']; field = case['field']; key = accessors_key(r)
+        body, exp = self.raw_value(e, r, case['kind'])
+        rendered = []
+        for c in body:
+            rendered.append(c)
+            if isinstance(c, int) and c == 10: rendered.append(32)
+        text = o(HEADS.get(key, '')) + o('X-Before: b\n' + field + ':') + rendered + o('\nX-After: a\n')
+        e.inputs.update(s=Str(text), type='%s::%s::%s' % (r['crate'], r['module'], r['type']), steps=[], getters=[r['getter']], getter_args=['Tag'], prior=1,
+                        fields=[field], expect=[expect_json(exp)], clear=[False], fam='parsed')
+        x, h = self.open_view(e, r, text)
+        g = self.read(e, x, r)
+        return {'pred': {}, 'checks': [('%s() gives the documented reading of the raw %s field' % (r['getter'], field), getter_matches(e, g, exp, r['crate']))]}
+
+    def run_find(self, e, case):
+        kinds = ['Source', 'Package', 'X-Other']
+        n = e.choose('np', 3) + 1
+        ks = [kinds[e.choose('pk', 3)] for _ in range(n)]
+        names = [[e.fresh_ascii('n', lower)] for _ in range(n)]
+        text = []
+        for i, (k, nm) in enumerate(zip(ks, names)):
+            if i: text += [10]
+            text += o('X-Id: p%d\n' % i) + o(k + ': ') + nm + [10]
+        add = [None, 'binary', 'source'][e.choose('add', 3)]
+        if add == 'source' and 'Source' in ks: add = None        # add_source is documented for a file that has no source paragraph yet
+        newname = [e.fresh_ascii('a', lower)]
+        e.inputs.update(s=Str(text), fam='find', kinds=ks, names=[Str(x) for x in names], add=[add, Str(newname)] if add else None)
+        c = e.call_path('control', '<lossless::control::Control as FromStr>::from_str', [Str(text)])
+        if c.variant != 'Ok': return {'pred': {}, 'checks': [('a well-formed control file is accepted', False)]}
+        ctl = c.slots[0]; cref = Ref([ctl], [0])
+        checks = []
+        def pid(view):
+            p = e.deref(view).slots[0]
+            v = e.call_path('deb822', 'lossless::Paragraph::get', [Ref([p], [0]), mkstr('X-Id')])
+            return e.deref(v.slots[0]).py() if v.variant == 'Some' else None
+        if add:
+            fn = 'add_source' if add == 'source' else 'add_binary'
+            ret = e.call_path('control', 'lossless::control::Control::' + fn, [cref, Str(newname)])
+            nm = e.call_path('control', 'lossless::control::%s::name' % ('Source' if add == 'source' else 'Binary'), [Ref([ret], [0])])
+            checks.append(('%s returns a view whose name is the given one' % fn, nm.variant == 'Some' and veq(e, nm.slots[0], Str(newname))))
+        src = e.call_path('control', 'lossless::control::Control::source', [cref])
+        want_src = next((i for i, k in enumerate(ks) if k == 'Source'), None)
+        if want_src is not None: checks.append(('source() is the first paragraph with a Source field', src.variant == 'Some' and pid(src.slots[0]) == 'p%d' % want_src))
+        elif add == 'source': checks.append(('source() finds the paragraph add_source created', src.variant == 'Some' and pid(src.slots[0]) is None))
+        else: checks.append(('source() is None without a Source paragraph', src.variant == 'None'))
+        it = e.call_path('control', 'lossless::control::Control::binaries', [cref])
+        got = [pid(b) for b in drain(e, getiter(e, it))]
+        want = ['p%d' % i for i, k in enumerate(ks) if k == 'Package'] + ([None] if add == 'binary' else [])
+        checks.append(('binaries() are exactly the paragraphs with a Package field, in order', got == want))
+        return {'pred': {}, 'checks': checks}
+
     def text_checks(self, e, before, after, field, val, state, setter):
         bl = split_lines(list(before.chars)); al = split_lines(list(after.chars))
         b_rest, b_n = without_field(bl, field); a_rest, a_n = without_field(al, field)
@@ -405,13 +539,20 @@ class C15(Harness):
 
     # -- native side --------------------------------------------------------------------------------------------------------------
     def request(self, case, w):
+        if case['fam'] == 'find': return {'op': 'control_find', 's': w['s'], 'add': w['add']}
         return {'op': 'accessor', 'type': w['type'], 's': w['s'], 'steps': w['steps'], 'getters': w['getters'], 'getter_args': w['getter_args']}
 
     def oracle(self, case, w, nat):
         if nat.get('timeout'): return [('hang', 'accessor does not terminate: %r' % w)]
         if 'crash' in nat: return [('crash', nat['crash'])]
         if 'error' in nat: return [('harness-error', nat['error'])]
+        if case['fam'] == 'find': return self.oracle_find(case, w, nat)
         if 'panic' in nat: return [('panic:open:' + w['type'], 'opening the view panics: %s' % nat['panic'][:150])]
+        if case['fam'] == 'parsed':
+            g = case['acc']['getter']; got = nat['states'][0]['get'].get(g); exp = w['expect'][0]; ty = w['type'].split('::', 1)[1]
+            if isinstance(got, dict) and 'panic' in got: return [('parsed-panic:%s::%s' % (ty, g), '%s() panics on %r: %s' % (g, w['s'], got['panic'][:120]))]
+            if not json_eq(got, exp, case['acc']['ret']): return [('parsed-reading:%s::%s:%s' % (ty, g, layout_of(w['s'], w['fields'][0])), '%s() on %r returns %r, the documented reading is %r' % (g, w['s'], got, exp))]
+            return []
         v = []; ty = w['type'].split('::', 1)[1]
         steps = w['steps']; st = nat['states']
         priors = ['absent', 'present', 'present-with-comment', 'absent-single-field']
@@ -448,12 +589,44 @@ class C15(Harness):
             if c not in seen: seen.add(c); out.append((c, m))
         return out
 
+    def oracle_find(self, case, w, nat):
+        if 'panic' in nat: return [('panic:find:' + classify_panic(nat['panic']), 'Control lookup panics on %r: %s' % (w['s'], nat['panic'][:120]))]
+        if not nat.get('ok'): return [('find:rejected', 'well-formed control file rejected: %r' % w['s'])]
+        v = []; ks = w['kinds']; names = w['names']; add = w['add']
+        b = nat['before']
+        ws = next((i for i, k in enumerate(ks) if k == 'Source'), None)
+        if (b['source'] or {}).get('id') != (('p%d' % ws) if ws is not None else None): v.append(('find:source', 'source() of %r is %r' % (w['s'], b['source'])))
+        elif ws is not None and b['source']['name'] != names[ws]: v.append(('find:source-name', 'source().name() of %r is %r' % (w['s'], b['source'])))
+        wb = [['p%d' % i, names[i]] for i, k in enumerate(ks) if k == 'Package']
+        if [[x['id'], x['name']] for x in b['binaries']] != wb: v.append(('find:binaries', 'binaries() of %r are %r' % (w['s'], b['binaries'])))
+        if add:
+            a = nat['after']; r = nat['returned']
+            if r.get('name') != add[1]: v.append(('find:add_%s:returned' % add[0], 'add_%s(%r) returns a view named %r' % (add[0], add[1], r.get('name'))))
+            if add[0] == 'binary':
+                if [[x['id'], x['name']] for x in a['binaries']] != wb + [[None, add[1]]]: v.append(('find:add_binary:list', 'after add_binary(%r) on %r binaries() are %r' % (add[1], w['s'], a['binaries'])))
+                if a['source'] != b['source']: v.append(('find:add_binary:source', 'add_binary changes source(): %r -> %r' % (b['source'], a['source'])))
+            else:
+                if not a['source'] or a['source']['name'] != add[1]: v.append(('find:add_source:lookup', 'after add_source(%r) on %r source() is %r' % (add[1], w['s'], a['source'])))
+                if a['binaries'] != b['binaries']: v.append(('find:add_source:binaries', 'add_source changes binaries()'))
+        return v
+
     def compare(self, case, pred, nat): return []
     def nontrivial(self, case, w): return True
-    def coverage_keys(self, case, w, nat): return ['view=' + w['type'], 'family=' + case['fam']]
+    def coverage_keys(self, case, w, nat): return ['view=' + w.get('type', 'control::lossless::control::Control'), 'family=' + case['fam']]
+
+
+def layout_of(text, field):
+    m = re.search(r'^' + re.escape(field) + r':(.*(?:\n[ \t].*)*)', text, re.M)
+    raw = m.group(1) if m else ''
+    ks = []
+    if '\n' in raw: ks.append('folded')
+    if ',' in raw: ks.append('comma')
+    if re.search(r'\S \S', raw): ks.append('space')
+    return '+'.join(ks) or 'single'
 
 
 def json_eq(got, exp, ret):
+    if isinstance(exp, dict) and exp.get('any'): return True
     if isinstance(exp, list) and exp and isinstance(exp[0], list) and ret and 'HashMap' in ret: return sorted(map(list, got or [])) == sorted(map(list, exp))
     if isinstance(got, list) and isinstance(exp, list): return [list(x) if isinstance(x, (list, tuple)) else x for x in got] == [list(x) if isinstance(x, (list, tuple)) else x for x in exp]
     if exp is None and got is False: return True
